@@ -15,7 +15,7 @@ CONFIG = {
     'level': 'fault_enumeration',
     'budget': {'quick': 30, 'thorough': 480},
     'rule': ('from the valid cache file of a random history (tree with outputs, created directories, foreign files) '
-             'every corruption class is applied in turn: truncation at offset 0, inside the gzip header, at each 10% '
+             'every corruption class is applied in turn: truncation at every offset of the gzip header and of the last 24 bytes and at each 10% '
              'of the body and inside the trailer; single bit flips at random offsets; valid gzip of non-JSON / '
              'non-UTF-8 / JSON of wrong shape (list, number, string, null) / wrong software / other cacheFileVersion / '
              'each key missing / wrong-typed fields; plain (non-gzip) JSON; the cache path being a directory; build-name '
@@ -23,7 +23,7 @@ CONFIG = {
              'path in a directory that does not exist yet) - each for build and for clean; oracle: if the call raised '
              'and no user function was entered, the tree incl. the cache file is bit-identical (bytes, mtime_ns, inode), '
              'the library issued no mutating file-system event outside the private temp dir and left nothing in it; '
-             'calls the library accepts (e.g. a flipped gzip MTIME byte) are counted, not judged; evaluations = refused '
+             'calls the library accepts (e.g. a flipped gzip MTIME byte) are counted, not judged - except truncations: an accepted proper prefix of a valid cache is a violation; evaluations = refused '
              'calls judged; distinct_nontrivial = distinct (corruption class, API, exception class)'),
     'gates': ['refused', 'refused:build', 'refused:clean', 'class:truncate', 'class:bitflip', 'class:json_shape',
               'class:wrong_type_arg', 'class:name_mismatch', 'class:cache_is_dir', 'accepted'],
@@ -37,7 +37,11 @@ class NotCalled(Exception):
 def corruptions(rng, good, tier):
     """yield (class, label, bytes or None)"""
     n = len(good)
-    offs = [0, 1, 2, 3, 5, 9] + [10 + (n - 18) * i // 10 for i in range(0, 11)] + [n - 8, n - 5, n - 1]
+    # every cut inside the gzip header and inside the last 24 bytes (trailer + end of the deflate
+    # stream), every 10% of the body; thorough: random further cuts
+    offs = list(range(0, 11)) + [10 + (n - 18) * i // 10 for i in range(0, 11)] + list(range(n - 24, n))
+    if tier != 'quick':
+        offs += [rng.randrange(n) for _ in range(40)]
     for o in sorted(set(o for o in offs if 0 <= o < n)):
         yield 'truncate', 'trunc@%d/%d' % (o, n), good[:o]
     for _ in range(20 if tier == 'quick' else 200):
@@ -78,6 +82,14 @@ def corruptions(rng, good, tier):
             yield 'json_shape', 'wrong-type:%s=%s' % (k, json.dumps(v)), gz(json.dumps(d))
 
 
+def label_cut(label):
+    try:
+        o, n = label.split('@')[1].split('/')
+        return int(n) - int(o)
+    except Exception:
+        return None
+
+
 def snapshot_all(w):
     return env.snapshot(w.sb), sorted(os.listdir(w.tmp))
 
@@ -102,6 +114,14 @@ def attempt(sh, w, cls, label, api, call, program):
     if entered or exc is None:
         sh.count('accepted')
         sh.count('accepted:' + cls)
+        if cls == 'truncate':
+            # a proper prefix of a valid cache file is "truncated": the property demands refusal
+            sh.evaluations += 1
+            sh.violation('truncated_cache_not_refused|%s|%s' % (api, 'function_called' if entered else 'returned'),
+                         {'label': label, 'cut_from_end': label_cut(label)},
+                         {'kind': 'c15', 'class': cls, 'label': label, 'api': api, 'program': program,
+                          'steps': list(w.steps), 'cache_rel': w.cache_rel})
+            return 'violation'
         return 'accepted'
     sh.evaluations += 1
     sh.count('refused')
@@ -178,7 +198,7 @@ def run_shard(sh):
                 # every class in every case; bit flips and truncations subsampled
                 keep = [it for it in items if it[0] == 'json_shape']
                 rest = [it for it in items if it[0] != 'json_shape']
-                items = keep + rng.sample(rest, min(len(rest), 16))
+                items = keep + rng.sample(rest, min(len(rest), 28))
             tok = w.save()
             for cls, label, data in items:
                 if sh.time_left() <= 0:
